@@ -501,3 +501,37 @@ func init() {
 		}
 	}
 }
+
+// ---- pool discipline monitor -----------------------------------------------------
+// Every stage that drives the printing API watches the printer pool while it runs: a printer is handed out
+// only while it is not in use, and handed back (or dropped) exactly once per use.  A printer released twice is
+// later handed to two users at once; what breaks then (wrong text from a nested Print, a fatal runtime
+// error) depends on chance, so the cause is reported where it happens.  (Pool!Get/Put preconditions; the
+// PoolTrace specification checks the same on the recorded histories of C12.)
+func installPoolMonitor(rep *lib.Report) (stop func()) {
+	var mu sync.Mutex
+	live := map[uint64]bool{}
+	prev := rfmt.VerifPoolSink
+	rfmt.VerifPoolSink = func(ev rfmt.VerifPoolEvent) {
+		if prev != nil {
+			prev(ev)
+		}
+		mu.Lock()
+		defer mu.Unlock()
+		switch ev.Ev {
+		case "get":
+			if live[ev.Pid] {
+				rep.Violate("pool:printer-handed-out-twice", fmt.Sprintf("printer %d was handed out while it was still in use", ev.Pid), nil)
+			}
+			live[ev.Pid] = true
+		case "put", "drop":
+			if !live[ev.Pid] {
+				// (said on stderr at once as well: the process may not live to print its summary)
+				fmt.Fprintf(os.Stderr, "CODE-UNDER-TEST-FAULT printer %d released twice (%s)\n", ev.Pid, ev.Ev)
+				rep.Violate("pool:printer-released-twice", fmt.Sprintf("printer %d was released (%s) although it was not in use: a printer handed back twice is later given to two users at once", ev.Pid, ev.Ev), nil)
+			}
+			delete(live, ev.Pid)
+		}
+	}
+	return func() { rfmt.VerifPoolSink = prev }
+}
